@@ -226,3 +226,36 @@ def ok_return_blocks(view):
                 continue
             out.append(b)
     return out
+
+
+class FlagGuard:
+    """Pass edge = the edge on which a bool read from storage (e.g. CONFIG.feature_toggle.swaps_enabled)
+    is true. `origin_pred(os)` decides whether the switch operand is the flag."""
+
+    def __init__(self, name, origin_pred):
+        self.name = name
+        self.pred = origin_pred
+
+    def pass_edges(self, model, chain, view):
+        edges = []
+        for b, cond, _ in switch_conds(view):
+            if cond.kind != "place":
+                continue
+            os_ = resolve(model, chain, view, view.origins_of_place(cond.pl, at=cond.at))
+            if self.pred(os_):
+                te, fe = cmp_true_false_edges(view, b, cond)
+                edges += fe if cond.neg else te
+        return edges
+
+
+def flag_tests(model, chain, view, blocks=None):
+    """All bool-place switch tests in `view` (restricted to `blocks`): [(block, origins, neg)]."""
+    out = []
+    for b, cond, _ in switch_conds(view):
+        if cond.kind != "place":
+            continue
+        if blocks is not None and b not in blocks:
+            continue
+        os_ = resolve(model, chain, view, view.origins_of_place(cond.pl, at=cond.at))
+        out.append((b, os_, cond.neg))
+    return out
